@@ -31,7 +31,7 @@ type LiveOpts struct {
 	Password    string
 	Brief       bool
 	// Device behaviour knobs (legal variants).
-	HostKeyQ, NeedEnPw, NoEnable, PromptSp, PagerSet, WidthSet, LegalWarn bool
+	HostKeyQ, NeedEnPw, NoEnable, PromptSp, PagerSet, WidthSet, LegalWarn, JoinReplies bool
 	SaveConfirm                                                        bool
 	SaveBusy                                                           int
 	Chunk, Latency                                                     bool
@@ -79,6 +79,9 @@ func DefaultLiveOpts(tp *tape.Tape) LiveOpts {
 	o.PagerSet = tp.Chance(1, 4)
 	o.WidthSet = tp.Chance(1, 4)
 	o.LegalWarn = tp.Chance(1, 2)
+	o.JoinReplies = tp.Chance(1, 2)
+	o.SaveConfirm = tp.Chance(1, 3)
+	o.SaveBusy = []int{0, 0, 0, 1, 2}[tp.Next(5)]
 	o.Chunk = tp.Chance(1, 3)
 	o.Latency = tp.Chance(1, 4)
 	o.Timeout = []int{60, 10, 30, 120}[tp.Next(4)]
@@ -103,7 +106,7 @@ func (c *Ctx) LiveCisco(cs *CiscoCase, o LiveOpts, sched *tape.Tape) *LiveResult
 		Banner: o.Banner, Hostname: o.Hostname, HostKeyQ: o.HostKeyQ, NeedEnPw: o.NeedEnPw,
 		NoEnable: o.NoEnable, PromptSp: o.PromptSp, PagerSet: o.PagerSet, WidthSet: o.WidthSet,
 		Faults: o.Faults, LegalWarn: o.LegalWarn, SaveConfirm: o.SaveConfirm, SaveBusy: o.SaveBusy,
-		FaultSeq: -1,
+		FaultSeq: -1, JoinReplies: o.JoinReplies,
 	}
 	if o.Startup != nil {
 		dev.Startup = o.Startup.Clone()
@@ -135,7 +138,13 @@ func (c *Ctx) LiveCisco(cs *CiscoCase, o LiveOpts, sched *tape.Tape) *LiveResult
 	r.Trouble = world.Bubble(c.T, func() {
 		log.Start()
 		verifhook.Console = func(cmd []string, timeout time.Duration) (*expect.GExpect, error) {
-			s := sshx.New(log, sched, synctest.Wait)
+			// Quiescence of the tool: everything blocked, and no timer of
+			// zero duration (goexpect's zero-timeout poll) still pending.
+			s := sshx.New(log, sched, func() {
+				synctest.Wait()
+				time.Sleep(time.Millisecond)
+				synctest.Wait()
+			})
 			s.ChunkOn, s.LatencyOn = o.Chunk, o.Latency
 			s.MaxDelay = time.Duration(o.Timeout) * time.Second / 3
 			sessions = append(sessions, s)
